@@ -45,7 +45,9 @@
 #define VK_NPAGES 3
 #endif
 #define VK_SEGMAX (VK_PAGE * VK_NPAGES)   /* largest segment / mapping in bytes */
-#define VK_FD_BASE 3
+#ifndef VK_FD_BASE
+#define VK_FD_BASE 3   /* first descriptor handed out; -DVK_FD_BASE=0: a process whose stdin is closed gets descriptor 0 */
+#endif
 
 /* ---- control (written by the harness) ---- */
 extern int vk_cur;               /* executing process: 0 or 1 */
